@@ -64,7 +64,10 @@ def gen(ch):
     sc.backend = pick_backend(ch, 1, 5)
     # argument patterns: one small int (the cache's fast path), or pairs whose key tuples collide in hash
     # (hash(-1) == hash(-2), hash(0.5) == hash(2**60)) and therefore have to be told apart by equality
-    sc.args = ([(0,), (1,), (2,), (3,)], [(-1, 0), (-2, 0), (0.5, 0), (2 ** 60, 0)])[ch.weighted([3, 1])]
+    sc.args = ([(0,), (1,), (2,), (3,)], [(-1, 0), (-2, 0), (0.5, 0), (2 ** 60, 0)],
+               [(1,), (1, ("mode", 2)), (2,), (3,)])[ch.weighted([3, 1, 1])]
+    # with the third set, pattern 0 is called as f(1, mode=2): a keyword item next to a positional tuple that looks like it
+    sc.kwargs = [{"mode": 2}, None, None, None] if sc.args[1] == (1, ("mode", 2)) else [None] * 4
     return sc
 
 
@@ -84,8 +87,8 @@ def execute(st, ctx):
         marks["tick"] += 1
         return marks["tick"]
 
-    async def wrapped(*args):
-        key = sc.args.index(args)
+    async def wrapped(*args, **kw):
+        key = sc.args.index(args) if not kw else sc.kwargs.index(kw)
         serial = len(invs)
         rec = [serial, key, sim.seq, None, "running", tick()]
         invs.append(rec)
@@ -122,7 +125,7 @@ def execute(st, ctx):
                 rec = [ti, key, sim.seq, None, "running", None, tick()]
                 calls.append(rec)
                 try:
-                    rec[5] = await cached(*sc.args[key])
+                    rec[5] = await cached(*sc.args[key], **(sc.kwargs[key] or {}))
                     rec[4] = "ok"
                 except InjectedFault:
                     rec[4] = "failed"
@@ -139,7 +142,7 @@ def execute(st, ctx):
             elif kind == 2:
                 if any(in_flight.values()):
                     out.probes["discard_in_flight"] = 1
-                cached.cache_discard(*sc.args[key])
+                cached.cache_discard(*sc.args[key], **(sc.kwargs[key] or {}))
                 marks.setdefault("discards", {})[key] = tick()
             else:
                 cached.cache_info()
@@ -215,10 +218,10 @@ def execute(st, ctx):
             for kind, key in sc.post:
                 before = len(invs)
                 if kind == 0:
-                    v = await cached(*sc.args[key])
+                    v = await cached(*sc.args[key], **(sc.kwargs[key] or {}))
                     post.append(("call", key, v, len(invs) - before, tuple(cached.cache_info())))
                 elif kind == 1:
-                    cached.cache_discard(*sc.args[key])
+                    cached.cache_discard(*sc.args[key], **(sc.kwargs[key] or {}))
                     post.append(("discard", key, None, 0, tuple(cached.cache_info())))
                 elif kind == 2:
                     cached.cache_clear()
